@@ -150,9 +150,10 @@ def driver_for(cfg, obs):
             if cfg.get('fork') and t == cfg['fork'][0]:
                 import copy as _copy
                 import pickle as _pickle
-                orig, orig_hist = storage, list(hist)
-                storage = _copy.deepcopy(storage) if cfg['fork'][1] == 'deepcopy' else _pickle.loads(_pickle.dumps(storage))
-                check_state(cfg, storage, hist, 'copy')
+                cp = choice.safe_copy(storage, cfg['fork'][1])
+                if cp is not None:      # (a storage that cannot be copied / pickled at all: the scenario does not apply)
+                    orig, orig_hist, storage = storage, list(hist), cp
+                    check_state(cfg, storage, hist, 'copy')
             if unique:
                 x = {'id': t, 'v': t % 2}
             else:
